@@ -139,6 +139,14 @@ func (p *Prog) nonZero(v ssa.Value, b *ssa.BasicBlock, edge []condFact, depth in
 	case *ssa.Convert:
 		return p.nonZero(x.X, b, edge, depth+1)
 	case *ssa.Call:
+		// max(x, c) with a positive constant is at least c
+		if bn := builtinName(&x.Call); bn == "max" {
+			for _, a := range x.Call.Args {
+				if c, ok := constInt(p.origin(a)); ok && c > 0 {
+					return 1, "max(…) with a positive constant"
+				}
+			}
+		}
 		// len of a slice field that is only assigned at construction (a ring sized once)
 		if bn := builtinName(&x.Call); bn == "len" || bn == "cap" {
 			if u, ok := p.origin(x.Call.Args[0]).(*ssa.UnOp); ok && u.Op == token.MUL {
